@@ -175,13 +175,30 @@ def build(repo=None):
         m = get(rel)
         module_mutables = set()
         for n in m.tree.body:
-            if isinstance(n, ast.Assign) and isinstance(n.value, (ast.Dict, ast.List, ast.Set)) :
+            mutable_ctor = lambda v: isinstance(v, (ast.Dict, ast.List, ast.Set, ast.DictComp, ast.ListComp, ast.SetComp)) or (
+                isinstance(v, ast.Call) and ast.unparse(v.func).split(".")[-1] in ("dict", "list", "set", "defaultdict", "OrderedDict", "WeakKeyDictionary", "WeakValueDictionary", "WeakSet", "deque", "Counter"))
+            if isinstance(n, ast.Assign) and mutable_ctor(n.value):
                 for t in n.targets:
                     if isinstance(t, ast.Name):
                         module_mutables.add(t.id)
+            elif isinstance(n, ast.AnnAssign) and n.value is not None and mutable_ctor(n.value) and isinstance(n.target, ast.Name):
+                module_mutables.add(n.target.id)
         # module-level mutable containers other than constant tables must not exist in the check modules
         tables = {"bools", "uints", "ints", "float8", "floats", "complexes", "_union_types"}
-        ob(f"C06:no-module-level-mutable-container-in-{rel.split('/')[-1]}", module_mutables <= tables, ["C06", "C12"] + (["C08"] if rel.endswith("_pytree_type.py") else []) + (["C03"] if rel.endswith("_array_types.py") else []), found=sorted(module_mutables - tables))
+        ob(f"C06:no-module-level-mutable-container-in-{rel.split('/')[-1]}", module_mutables <= tables, ["C06", "C12"] + (["C08"] if rel.endswith("_pytree_type.py") else []) + (["C03", "C20"] if rel.endswith("_array_types.py") else []), found=sorted(module_mutables - tables))
+    # the vendored checker that PyTree leaf checks run through: its module-level containers are the documented ones (two weak caches keyed by the function /
+    # code object, two constant dispatch tables); anything else could carry a verdict from one check to the next
+    tg = get("jaxtyping/_typeguard/__init__.py")
+    tg_mut = set()
+    for n in tg.tree.body:
+        v = n.value if isinstance(n, (ast.Assign, ast.AnnAssign)) else None
+        if v is not None and (isinstance(v, (ast.Dict, ast.List, ast.Set, ast.DictComp, ast.ListComp, ast.SetComp)) or (
+                isinstance(v, ast.Call) and ast.unparse(v.func).split(".")[-1] in ("dict", "list", "set", "defaultdict", "OrderedDict", "WeakKeyDictionary", "WeakValueDictionary", "WeakSet", "deque", "Counter"))):
+            for t in (n.targets if isinstance(n, ast.Assign) else [n.target]):
+                if isinstance(t, ast.Name):
+                    tg_mut.add(t.id)
+    tg_tables = {"_type_hints_map", "_functions_map", "BINARY_MAGIC_METHODS", "origin_type_checkers"}
+    ob("C12:no-undocumented-module-level-mutable-container-in-the-vendored-checker", tg_mut <= tg_tables, ["C12", "C08", "C06"], found=sorted(tg_mut - tg_tables))
     # class-level mutable state on the metaclasses
     am = get("jaxtyping/_array_types.py")
     meta_cls = am.cls("_MetaAbstractArray")
